@@ -17,7 +17,11 @@ TrCall == /\ More /\ Ev.ev = "call"
           /\ Call([m |-> Ev.m, f |-> Ev.f, c |-> Ev.c])
           /\ out' = Ev.out /\ switch' = Ev.sw
           /\ l' = l + 1 /\ tid' = tid
-TrNext == TrAssign \/ TrCall
+TrOther == /\ More /\ Ev.ev = "other_instance"
+           /\ OtherInstance(Ev.v)
+           /\ out' = Ev.out /\ switch' = Ev.sw
+           /\ l' = l + 1 /\ tid' = tid
+TrNext == TrAssign \/ TrCall \/ TrOther
 TrSpec == TrInit /\ [][TrNext]_tvars
 (* progress report: the harness accepts a trace iff l reached Len+1 *)
 TrEmit == PrintT("@@" \o ToJson([tid |-> tid, l |-> l]))
